@@ -1713,6 +1713,136 @@ def finallylost(fn):
 
 
 # --------------------------------------------------------------------------
+# STALEDEP
+# --------------------------------------------------------------------------
+def staledep(fn):
+    """A collection worked out from the attributes of an object before a
+    loop (``below = [.. for e in merge.table[merge.index:]]``), read inside
+    the loop, while the loop binds the object's name to a new object
+    (``merge = _Merge(..)``) and never works the collection out again: from
+    the pass that re-binds the name on, the collection describes an object
+    that is no longer the one in hand."""
+    out = []
+    params = {a.arg for a in ast.walk(fn.args) if isinstance(a, ast.arg)}
+    own = list(_own_nodes(fn))
+    top_loops = [n for n in own if isinstance(n, (ast.For, ast.While))
+                 and not list(_loops_above(n, fn))]
+    for L in top_loops:
+        rebound_by_call = set()
+        stored_in_L = set()
+        for b in L.body:
+            for x in _walk_scope(b):
+                if isinstance(x, ast.Name) and isinstance(x.ctx, ast.Store):
+                    stored_in_L.add(x.id)
+                if isinstance(x, ast.Assign) and len(x.targets) == 1 and \
+                        isinstance(x.targets[0], ast.Name) and \
+                        isinstance(x.value, ast.Call):
+                    rebound_by_call.add(x.targets[0].id)
+                # mutated in place inside L: the collection is kept up
+                if isinstance(x, ast.Call) and isinstance(
+                        x.func, ast.Attribute) and isinstance(
+                            x.func.value, ast.Name) and \
+                        x.func.attr in _SIZE_CHANGERS | {"sort", "reverse"}:
+                    stored_in_L.add(x.func.value.id)
+                if isinstance(x, (ast.Assign, ast.AugAssign, ast.Delete)):
+                    tg = x.targets if not isinstance(x, ast.AugAssign) \
+                        else [x.target]
+                    for t in tg:
+                        if isinstance(t, ast.Subscript) and isinstance(
+                                t.value, ast.Name):
+                            stored_in_L.add(t.value.id)
+        if isinstance(L, ast.For):
+            stored_in_L |= set(_names_stored(L.target))
+        if not rebound_by_call:
+            continue
+        reads = {}
+        for b in L.body:
+            for x in _walk_scope(b):
+                if isinstance(x, ast.Name) and isinstance(x.ctx, ast.Load):
+                    reads.setdefault(x.id, x)
+        for v, site in sorted(reads.items()):
+            if v in stored_in_L or v in params:
+                continue
+            # the statements before L that build v
+            builders = []
+            for st in own:
+                if not isinstance(st, ast.stmt) or _inside(st, L) or \
+                        (st.lineno, st.col_offset) >= (L.lineno,
+                                                       L.col_offset):
+                    continue
+                if isinstance(st, ast.Assign) and any(
+                        _is_name(t, v) for t in st.targets):
+                    builders.append(st)
+                elif isinstance(st, ast.Expr) and isinstance(
+                        st.value, ast.Call) and isinstance(
+                            st.value.func, ast.Attribute) and \
+                        _is_name(st.value.func.value, v) and \
+                        st.value.func.attr in _SIZE_CHANGERS:
+                    builders.append(st)
+                    for q in _loops_above(st, fn):
+                        builders.append(q)
+            if not builders:
+                continue
+            # a collection: some builder makes a display / comprehension /
+            # list() / set() / dict() or grows it
+            def collection(st):
+                if isinstance(st, ast.Expr):
+                    return True
+                val = getattr(st, "value", None)
+                return isinstance(val, (ast.List, ast.Set, ast.Dict,
+                                        ast.ListComp, ast.SetComp,
+                                        ast.DictComp)) or (
+                    isinstance(val, ast.Call) and isinstance(
+                        val.func, ast.Name) and val.func.id in _MUT_CTORS)
+            if not any(collection(st) for st in builders
+                       if isinstance(st, ast.stmt) and
+                       not isinstance(st, (ast.For, ast.While))):
+                continue
+            dep_attrs = {}
+            for st in builders:
+                exprs = [st.iter] if isinstance(st, ast.For) else \
+                    [st.test] if isinstance(st, ast.While) else [st]
+                for e in exprs:
+                    for x in ast.walk(e):
+                        if isinstance(x, ast.Attribute) and isinstance(
+                                x.ctx, ast.Load) and isinstance(
+                                    x.value, ast.Name):
+                            dep_attrs.setdefault(x.value.id, x)
+                        elif isinstance(x, ast.Call) and not (
+                                isinstance(x.func, ast.Name) and
+                                x.func.id in _MUT_CTORS | {"len", "sorted",
+                                                           "tuple"}):
+                            # the object handed whole to a function whose
+                            # result is collected: list(f(merge, aliases))
+                            for a in x.args:
+                                if isinstance(a, ast.Name):
+                                    dep_attrs.setdefault(a.id, a)
+            hits = [m_ for m_ in dep_attrs if m_ in rebound_by_call and
+                    m_ not in ("self", "cls")]
+            if not hits:
+                continue
+            # only a collection that the loop goes through as a whole
+            # (for .. in v, a comprehension over v): a table looked up by
+            # key (v[k]) may well be valid for every object to come
+            uses = [x for b in L.body for x in _walk_scope(b)
+                    if isinstance(x, ast.Name) and x.id == v and
+                    isinstance(x.ctx, ast.Load)]
+            if not uses or not all(
+                    isinstance(u._parent, (ast.For, ast.comprehension)) and
+                    u._parent.iter is u for u in uses):
+                continue
+            m_ = hits[0]
+            out.append((site, "%s is worked out before the loop at line %d "
+                        "from %s.%s (line %d); the loop binds %s to a new "
+                        "object and goes on reading %s without working it "
+                        "out again: it describes the object %s named before"
+                        % (v, L.lineno, m_, getattr(dep_attrs[m_], "attr",
+                                                     "<as an argument>"),
+                           dep_attrs[m_].lineno, m_, v, m_)))
+    return out
+
+
+# --------------------------------------------------------------------------
 # CACHEDMUT
 # --------------------------------------------------------------------------
 _MUT_CTORS = {"dict", "list", "set", "bytearray", "defaultdict",
@@ -1819,7 +1949,8 @@ def findings(program, modules):
                             ("UNBOUND", lambda d=d: unbound(d)),
                             ("CACHEDMUT", lambda d=d: cachedmut(d)),
                             ("SNAPSHOT", lambda d=d: snapshot(d)),
-                            ("FINALLYLOST", lambda d=d: finallylost(d))):
+                            ("FINALLYLOST", lambda d=d: finallylost(d)),
+                            ("STALEDEP", lambda d=d: staledep(d))):
                 for n, text in f():
                     out.append((kind, mname, q, n, text, _txt(n, 50)))
     return out, stats
@@ -1828,7 +1959,7 @@ def findings(program, modules):
 _SELFTEST = []
 KINDS = ("UNDEF", "SELFATTR", "CALLSIG", "EXHAUST", "ITERMUT", "LATEBIND",
          "INTDIV", "SHADOW", "SWALLOW", "UNBOUND", "CACHEDMUT", "SNAPSHOT",
-         "FINALLYLOST")
+         "FINALLYLOST", "STALEDEP")
 
 
 def selftest():
